@@ -8,7 +8,7 @@ coq_makefile -f _CoqProject -o Makefile >/dev/null
 timeout 3000 make -j16 > "$here/coq/build.log" 2>&1 || { tail -40 "$here/coq/build.log"; exit 1; }
 cd "$here"
 for spec in $(cat runner/models.txt); do
-  name=${spec%%:*}; vfile=${spec##*:}
+  name=$(echo "$spec" | cut -d: -f1); vfile=$(echo "$spec" | cut -d: -f2)
   ./runner/build.sh "$name" "$vfile"
 done
 echo "setup ok"
